@@ -101,8 +101,10 @@ class Ctx:
         self.sc = sc; self.g = g; self.pat = g.pat
         loc = g.loc
         self.res = sp.sympify(g.root['residual'])
-        self.ur_star = solve_ur(self.res)
-        self.sub = {ur: self.ur_star}
+        try:
+            self.ur_star = solve_ur(self.res); self.sub = {ur: self.ur_star}; self.elim_error = None
+        except Unsupported as u:
+            self.ur_star = None; self.sub = None; self.elim_error = str(u)
         self.V = [sp.sympify(v) for v in loc['Vregs'].items]
         self.X = [sp.sympify(v) for v in loc['Xregs'].items]
         self.star = {k: sp.sympify(loc[k]) for k in ('ux', 'rx1', 'rx2', 'ex1', 'ex2', 'ax1', 'ax2')}
@@ -115,6 +117,7 @@ class Ctx:
 
     def E(self, e):
         """eliminate the root equation"""
+        if self.sub is None: raise Unsupported(self.elim_error)
         return sp.sympify(e).xreplace(self.sub) if isinstance(e, sp.Basic) else e
 
     def fields(self, k):
@@ -176,7 +179,8 @@ def _native(ctx, raw, body):
     for s_ in ctx.syms:
         pt[s_] = sp.sympify(raw[s_.name]) if s_.name in raw else sp.Integer(1)
     val = lambda e: float(alg.numeric(e, pt, 25))
-    par = {'pl': val(pl), 'rl': val(rl), 'ul': val(ul), 'gl': val(gl), 'pr': val(pr), 'rr': val(rr), 'ur': val(ctx.ur_star), 'gr': val(gr), 'xd0': val(xd0),
+    pt.setdefault(ur, sp.sympify(raw['ur']) if 'ur' in raw else sp.Integer(0))
+    par = {'pl': val(pl), 'rl': val(rl), 'ul': val(ul), 'gl': val(gl), 'pr': val(pr), 'rr': val(rr), 'ur': val(ctx.ur_star) if (ctx.ur_star is not None and 'px' in raw) else val(ur), 'gr': val(gr), 'xd0': val(xd0),
            'xmin': val(xd0) - 1.0, 'xmax': val(xd0) + 1.0}
     return NATIVE % dict(par=par, t=val(t), body=body)
 
@@ -438,3 +442,191 @@ def run_unit(pid, pat, fam, tier='quick'):
         res['obligations'].append(core.Obl('%s/riemann/%s/%s/extraction' % (pid, pat, fam), 'open', 'extraction', 0.0, detail='extraction: %s' % u))
     for o in res['obligations']: o.pop('cex_raw', None)
     return res
+
+
+# ================================================================================================ symmetries (C09)
+MIRROR = {'SCS': 'SCS', 'SCR': 'RCS', 'RCS': 'SCR', 'RCR': 'RCR'}
+
+
+def sigma():
+    """mirror substitution: exchange the states, negate velocities, reflect about the membrane"""
+    return {pl: pr, pr: pl, rl: rr, rr: rl, gl: gr, gr: gl, ul: -ur, ur: -ul, x: 2 * xd0 - x}
+
+
+def S(e, sub):
+    return sp.sympify(e).xreplace(sub) if isinstance(e, sp.Basic) else e
+
+
+def sub_simul(e, sub):
+    return sp.sympify(e).subs(sub, simultaneous=True) if isinstance(e, sp.Basic) else e
+
+
+def group_pc(ctx):
+    """condition under which the driver selects this wave pattern: disjunction over the paths of the group of their pattern decisions
+    (the float-equality side-selection decisions are dropped: generic data)"""
+    alts = []
+    for p in ctx.g.paths:
+        cs = [c for c in pattern_pc(p, ctx.X) if not (isinstance(c, sp.Not) and isinstance(c.args[0], sp.And) and c.args[0].has(sp.Eq))]
+        a_ = sp.And(*cs)
+        if a_ not in alts: alts.append(a_)
+    return [sp.Or(*alts)]
+
+
+def ob_mirror(ctxs, pat, pid):
+    out = []; a = ctxs[pat]; b = ctxs[MIRROR[pat]]; sg = sigma()
+    base = '%s/riemann/%s/mirror' % (pid, pat)
+    # (a) the mirrored problem has the same star-pressure equation
+    rb = sub_simul(b.res, sg); done = False
+    for sign in (1, -1):
+        z, _ = alg.is_zero(a.res - sign * rb, cr.HYPS)
+        if z:
+            out.append(core.Obl(base + '/root_equation', 'discharged', 'ring-mod-laws(sympy)', 0.0, goal='%s_call of the mirrored data == %s %s_call of the original data: same star pressure' % (b.pat, '+' if sign > 0 else '-', a.pat))); done = True; break
+    if not done:
+        o = core.prove_zero(base + '/root_equation', (a.res - rb) * (a.res + rb), cr.HYPS + [px > 0], goal_text='star-pressure equations of a problem and its mirror image coincide', extra_syms=a.syms | {ur})
+        out.append(_finish(a, o, _native_mirror()))
+    # (b) classification: the mirror image of a pattern-P problem is classified as the mirrored pattern
+    ca = sp.And(*group_pc(a)); cb = sp.And(*[sub_simul(c, sg) for c in group_pc(b)])
+    ab = Abstraction({ul, ur}, cr.HYPS); goal_abs = ab.rel(sp.Equivalent(ca, cb))
+    o = core.prove_valid(base + '/classification', cr.HYPS + ab.lemmas, goal_abs, goal_text='original data select %s  <=>  mirrored data select %s (velocity-free sub-terms abstracted, equal ones identified by the ring back end)' % (a.pat, b.pat))
+    out.append(_finish(a, o, _native_mirror()))
+    # (c) wave speeds negate and reverse; (d) region states mirror
+    if a.sub is None:
+        out.append(core.Obl(base + '/elimination', 'open', 'extraction', 0.0, detail=a.elim_error)); return out
+    n = len(a.V)
+    for j in range(n):
+        vb = a.E(sub_simul(b.V[n - 1 - j], sg))
+        out.append(_finish(a, core.prove_zero(base + '/speed%d' % j, a.E(a.V[j]) + vb, a.hyps, goal_text='V_%d of the original == -V_%d of the mirror image' % (j, n - 1 - j), extra_syms=a.syms), _native_mirror()))
+    for k in sorted(a.regions):
+        kb = n - k
+        if kb not in b.regions:
+            out.append(core.Obl(base + '/region%d' % k, 'open', 'extraction', 0.0, detail='mirror region %d not identified' % kb)); continue
+        Fa = a.fields(k); Fb = {nme: a.E(sub_simul(v, sg)) for nme, v in b.regions[kb].value.fields().items()}
+        for nme, sgn in (('pressure', 1), ('density', 1), ('specific_internal_energy', 1), ('velocity', -1)):
+            out.append(_finish(a, core.prove_zero('%s/region%d/%s' % (base, k, nme), Fa[nme] - sgn * Fb[nme], a.hyps, goal_text='%s(x) of the original == %s%s(2 xd0 - x) of the mirror image' % (nme, '-' if sgn < 0 else '', nme),
+                                                  extra_syms=a.syms), _native_mirror()))
+    return out
+
+
+_FAMILY = r"""
+def family():
+    out = [dict(par)]
+    for pl_, pr_ in ((1.0, 0.1), (0.1, 1.0), (1.0, 1.0), (0.4, 0.35)):
+        for ul_, ur_ in ((0.0, 0.0), (0.3, 0.0), (0.0, -0.3), (0.0, 0.3), (-0.2, 0.4), (1.0, -1.0), (-1.0, 1.0)):
+            for gl_, gr_ in ((1.4, 1.4), (1.4, 5.0 / 3.0)):
+                out.append(dict(par, pl=pl_, pr=pr_, rl=1.0, rr=0.125 if pr_ < pl_ else 1.0, ul=ul_, ur=ur_, gl=gl_, gr=gr_, xd0=0.5, xmin=0.0, xmax=1.0))
+    return out
+"""
+
+
+def _native_mirror():
+    return _FAMILY + r'''
+def check(P):
+    xd0 = P['xd0']
+    m = dict(P); m.update(pl=P['pr'], pr=P['pl'], rl=P['rr'], rr=P['rl'], gl=P['gr'], gr=P['gl'], ul=-P['ur'], ur=-P['ul'])
+    with contextlib.redirect_stdout(io.StringIO()): s1 = IGEOS_Solver(**P); s2 = IGEOS_Solver(**m)
+    xs = np.linspace(xd0 - 0.45, xd0 + 0.45, 37) + 0.0031
+    with contextlib.redirect_stdout(io.StringIO()): a = s1(np.array(xs), 0.1); b = s2(np.array(2 * xd0 - xs), 0.1)
+    worst = {}
+    for n, sg_ in (('pressure', 1), ('density', 1), ('specific_internal_energy', 1), ('velocity', -1)):
+        d = np.abs(a[n] - sg_ * b[n]) / (np.max(np.abs(a[n])) + 1e-12); worst[n] = float(np.max(d))
+    return worst, str(s1.soln_type), str(s2.soln_type)
+# the verifier's counterexample first, then a fixed family of problems (replay search)
+res = None; tried = 0
+for P in family():
+    try: w_, t1, t2 = check(P)
+    except Exception: continue
+    tried += 1
+    if max(w_.values()) > 1e-6: res = {'reproduced': True, 'worst_relative_difference': w_, 'problem': P, 'soln_type': t1, 'mirror_soln_type': t2, 'problems_tried': tried}; break
+print(json.dumps(res or {'reproduced': False, 'problems_tried': tried}))
+'''
+
+
+def _native_boost():
+    return _FAMILY + r'''
+def check(P, w=0.37):
+    xd0 = P['xd0']
+    m = dict(P); m.update(ul=P['ul'] + w, ur=P['ur'] + w)
+    with contextlib.redirect_stdout(io.StringIO()): s1 = IGEOS_Solver(**P); s2 = IGEOS_Solver(**m)
+    xs = np.linspace(xd0 - 0.45, xd0 + 0.45, 37) + 0.0031
+    with contextlib.redirect_stdout(io.StringIO()): a = s1(np.array(xs), 0.1); b = s2(np.array(xs + w * 0.1), 0.1)
+    worst = {}
+    for n, sh in (('pressure', 0), ('density', 0), ('specific_internal_energy', 0), ('velocity', w)):
+        d = np.abs(a[n] + sh - b[n]) / (np.max(np.abs(a[n])) + abs(sh) + 1e-12); worst[n] = float(np.max(d))
+    return worst, str(s1.soln_type), str(s2.soln_type)
+res = None; tried = 0
+for P in family():
+    try: w_, t1, t2 = check(P)
+    except Exception: continue
+    tried += 1
+    if max(w_.values()) > 1e-6: res = {'reproduced': True, 'worst_relative_difference': w_, 'problem': P, 'soln_type': t1, 'boosted_soln_type': t2, 'problems_tried': tried}; break
+print(json.dumps(res or {'reproduced': False, 'problems_tried': tried}))
+'''
+
+
+def ob_galilean(ctxs, pat, pid):
+    out = []; a = ctxs[pat]; w = sp.Symbol('w_boost', real=True)
+    tau = {ul: ul + w, ur: ur + w, x: x + w * t}
+    base = '%s/riemann/%s/galilean' % (pid, pat)
+    out.append(_finish(a, core.prove_zero(base + '/root_equation', a.res - sub_simul(a.res, tau), cr.HYPS + [px > 0], goal_text='star-pressure equation depends on ur - ul only', extra_syms=a.syms | {ur, w}), _native_boost()))
+    ca = sp.And(*group_pc(a)); cb = sp.And(*[sub_simul(c, tau) for c in group_pc(a)])
+    ab = Abstraction({ul, ur, w}, cr.HYPS)
+    out.append(_finish(a, core.prove_valid(base + '/classification', cr.HYPS, ab.rel(sp.Equivalent(ca, cb)), goal_text='wave pattern selection is invariant under a common boost (velocity-free sub-terms abstracted)'), _native_boost()))
+    # with ur eliminated: the boosted problem has ur' = ur* + w
+    if a.sub is None:
+        out.append(core.Obl(base + '/elimination', 'open', 'extraction', 0.0, detail=a.elim_error)); return out
+    for j, V in enumerate(a.V):
+        out.append(_finish(a, core.prove_zero(base + '/speed%d' % j, a.E(sub_simul(V, tau)) - a.E(V) - w, a.hyps, goal_text='wave speed %d shifts by the boost' % j, extra_syms=a.syms | {w}), _native_boost()))
+    for k in sorted(a.regions):
+        F = a.regions[k].value.fields()
+        for nme, sh in (('pressure', 0), ('density', 0), ('specific_internal_energy', 0), ('velocity', w)):
+            out.append(_finish(a, core.prove_zero('%s/region%d/%s' % (base, k, nme), a.E(sub_simul(F[nme], tau)) - a.E(F[nme]) - sh, a.hyps, goal_text='%s(x + w t) of the boosted problem == %s(x)%s' % (nme, nme, ' + w' if sh != 0 else ''),
+                                                  extra_syms=a.syms | {w}), _native_boost()))
+    return out
+
+
+class Abstraction:
+    """replace sub-terms free of the `keep` symbols by fresh symbols (equal sub-terms - proved equal by the ring back end - share a symbol),
+    so that classification conditions become linear in the velocities; sound for validity (an over-approximation of the models)"""
+    def __init__(self, keep, hyps):
+        self.keep = set(keep); self.hyps = hyps; self.table = []; self.lemmas = []      # (expr, symbol, fingerprint)
+        self.pts = alg.sample_points({pl, rl, gl, pr, rr, gr}, cr.HYPS[:2], 2, seed=5)
+
+    def sym(self, e):
+        if e.is_number: return e
+        if not e.free_symbols - {pl, pr}: return e                        # keep pressure comparisons concrete
+        fp = tuple(sp.N(alg.numeric(e, pt, 30), 25) for pt in self.pts)
+        for ex, s_, f_ in self.table:
+            if all(abs(a - b) <= sp.Float('1e-20') * (abs(a) + abs(b) + 1) for a, b in zip(fp, f_)):
+                if ex == e or alg.is_zero(ex - e, self.hyps)[0]: return s_
+            if all(abs(a + b) <= sp.Float('1e-20') * (abs(a) + abs(b) + 1) for a, b in zip(fp, f_)):
+                if alg.is_zero(ex + e, self.hyps)[0]: return -s_
+        s_ = sp.Symbol('K%d' % len(self.table), real=True); self.table.append((e, s_, fp))
+        # sign lemmas of the abstracted term relative to the pressure ordering (each proved on the concrete term by z3, then usable on the abstract one)
+        for hi, lo in ((pr, pl), (pl, pr)):
+            et = sp.together(e)
+            f_conc = sp.And(sp.Equivalent(et >= 0, hi >= lo), sp.Equivalent(et > 0, hi > lo))
+            ok, _ = smt.valid(self.hyps, f_conc, 4000)
+            if ok:
+                self.lemmas.append(sp.And(sp.Equivalent(s_ >= 0, hi >= lo), sp.Equivalent(s_ > 0, hi > lo))); break
+        else:
+            bs = alg.binomial_sign(e, self.hyps)
+            if bs is not None:
+                sg_, b1, b2 = bs
+                hi, lo = (b1, b2) if sg_ > 0 else (b2, b1)
+                self.lemmas.append(sp.And(sp.Equivalent(s_ >= 0, hi >= lo), sp.Equivalent(s_ > 0, hi > lo)))
+        return s_
+
+    def rel(self, c):
+        if c in (sp.true, sp.false) or isinstance(c, bool): return c
+        if isinstance(c, (sp.And, sp.Or, sp.Not, sp.Equivalent)): return c.func(*[self.rel(a_) for a_ in c.args])
+        if c.is_Relational:
+            e = sp.expand(c.lhs - c.rhs)
+            if not e.free_symbols & self.keep: 
+                return c
+            groups = {}
+            for term in sp.Add.make_args(e):
+                co, dep = term.as_independent(*self.keep, as_Add=False)
+                groups[dep] = groups.get(dep, 0) + co
+            tot = sum(self.sym(sp.sympify(co)) * dep for dep, co in groups.items())
+            return c.func(tot, 0)
+        return c
